@@ -42,6 +42,9 @@ Judge ==
                      ELSE IF s.table # r THEN "TableEngineIsRemainder"
                      ELSE IF s.bitwise_le # r THEN "BitwiseEngineIsRemainder(little-endian bitarray)"
                      ELSE IF s.table_le # r THEN "TableEngineIsRemainder(little-endian bitarray)"
+                     \* verify_checksum of both engines: true for the remainder, false for every other integer the harness
+                     \* offered - one bit off, and values wider than the register whose low bits are the remainder
+                     ELSE IF ~s.verify_same \/ s.verify_other THEN "VerificationAcceptsExactlyTheComputedValue"
                      ELSE "ok",
              dr |-> "ok"]
     [] phase = "fe" ->
